@@ -54,20 +54,21 @@ def run(ctx, chk):
     macbytes = prog.K("crypto_onetimeauth_poly1305_BYTES")
 
     # ---- R9.1 -----------------------------------------------------------------------------
+    from . import c02
+    auth = c02.Auth(prog, chk)
     ps = cm.paths(prog, pull)
     nfail = nwr = 0
     for p in ps:
         if p.kind != "ret":
             continue
-        # index of the passed comparison on this path (if any)
+        # index of the event that establishes authentication on this path (comparator, or a helper shown
+        # to return "match" only after one: shared with C02)
         cmp_idx = None
-        for e in p.calls():
-            n = cm.comparator_len(e)
-            if n == macbytes and p.facts.zeroness(e.res) == "Z":
-                roots = [T.root(a) for a in e.args[:2]]
-                if any(r[0] == "alloca" for r in roots) and any(r[0] == "arg" for r in roots):
-                    cmp_idx = e.idx
-                    break
+        for conj in ([[]] if not p.may_return_zero() else (cm.success_conjunctions(p) or [[]])):
+            w = auth.witness(pull, p, conj)
+            if w is not None and (macbytes in w[1]):
+                cmp_idx = w[3].idx
+                break
         wr = state_writers(prog, p, ST)
         mwr = state_writers(prog, p, ("arg", 1))
         if p.may_return_nonzero():
@@ -107,6 +108,8 @@ def run(ctx, chk):
             # the MAC object: second argument of the finaliser
             rew[fin[0].args[1]] = "MAC"
             sh = cm.Shaper(prog, p, roles, rew)
+            first_sw = next((e.idx for e in p.events[fin[0].idx + 1:]
+                             if e.kind in ("call", "store") and cm.writes_through(prog, p, e, ST)), 1 << 30)
             sig = []
             for e in p.events[fin[0].idx + 1:]:
                 if e.kind == "fact":
@@ -115,8 +118,8 @@ def run(ctx, chk):
                     # by design between the two directions; everything else is the rekey condition
                     if e.term[0] == "icmp" and e.term[2][0] == "arg" and e.term[3] == C(0, 64):
                         continue
-                    if any(l[0] == "call" and fn.insts[l[1]].get("callee", [None, None])[1] == "sodium_memcmp" for l in lv):
-                        continue
+                    if e.idx < first_sw:
+                        continue        # the authentication decision (comparator or helper) precedes the state update
                     sig.append(sh.event(e))
                 elif e.kind in ("call", "store") and cm.writes_through(prog, p, e, ST):
                     sig.append(sh.event(e))
